@@ -6,6 +6,12 @@
 // ------------------------------------------------------------------ Highest
 //@extract src/methods/highest_lowest.rs struct:Highest
 //@end
+impl Highest {
+//@extract src/methods/highest_lowest.rs impl[Peekable<<Self as Method>::Output> for Highest]::peek pub
+//@sig pub fn peek(&self) -> (r: ValueType)
+	ensures r == self.value,
+//@end
+}
 impl Method for Highest {
 	type Params = PeriodType;
 	type Input = ValueType;
@@ -62,6 +68,12 @@ impl Method for Highest {
 // ------------------------------------------------------------------ Lowest
 //@extract src/methods/highest_lowest.rs struct:Lowest
 //@end
+impl Lowest {
+//@extract src/methods/highest_lowest.rs impl[Peekable<<Self as Method>::Output> for Lowest]::peek pub
+//@sig pub fn peek(&self) -> (r: ValueType)
+	ensures r == self.value,
+//@end
+}
 impl Method for Lowest {
 	type Params = PeriodType;
 	type Input = ValueType;
@@ -119,6 +131,12 @@ impl Method for Lowest {
 // ------------------------------------------------------------------ HighestLowestDelta
 //@extract src/methods/highest_lowest.rs struct:HighestLowestDelta
 //@end
+impl HighestLowestDelta {
+//@extract src/methods/highest_lowest.rs impl[Peekable<<Self as Method>::Output> for HighestLowestDelta]::peek pub
+//@sig pub fn peek(&self) -> (r: ValueType)
+	ensures r@ == self.highest@ - self.lowest@,
+//@end
+}
 impl Method for HighestLowestDelta {
 	type Params = PeriodType;
 	type Input = ValueType;
